@@ -16,7 +16,7 @@ TRUSTED = [
     "run_load / refresh_priorities (float demand priorities) are an oracle: the theorems hold for every LOAD/EVICT answer and "
     "every virtual cluster it leaves; the demand bookkeeping (floats) of add_task/remove_task is not modelled (no effect on "
     "placements when scheduler_run_load is off)",
-    "Resources.__gt__ (cumulative play of the requests, /repo 402c33a) / allocate / __copy__ (workload/resources.py) are transcribed (take_loop, res_play, alloc_loop); their own properties belong to C04",
+    "Resources.__gt__ (cumulative play of the requests, /repo 402c33a) / allocate (refuses negative quantities) / __copy__ (copies cells: the copy sees the live available vector) and Worker.place_task (refuses an already placed task) / Worker.__copy__ (copies placed tasks, batch registry and loading timers) are transcribed (take_loop, res_play, alloc_loop, w_place, w_placed); their own properties belong to C04",
     "work profiles have at least one loading strategy (Model.Request.__init__ dereferences it)",
 ]
 HEADER = "From Verif Require Import Gen.Src_Clockwork Model.Clockwork."
@@ -134,7 +134,8 @@ def g_task(t):
 
 
 def g_worker(w):
-    return "(mkW %s %s %s)" % (gz(w["wid"]), g_res(w["res"]), glist(["(%s, %s)" % (gz(m), gz(a)) for m, a in w["loaded"]]))
+    return "(mkW %s %s %s %s)" % (gz(w["wid"]), g_res(w["res"]), glist(["(%s, %s)" % (gz(m), gz(a)) for m, a in w["loaded"]]),
+                                   glist([gz(i) for i in w.get("placed", [])]))
 
 
 def g_pools(view):
@@ -185,6 +186,11 @@ def generate(ctx, n, size, mode="natural"):
                 elif r < 0.6:
                     st["run"] = False
                     st["unschedule"] = [t["tid"] for t in h["tasks"] if ctx.rng.random() < 0.5]
+                elif r < 0.75:
+                    # placed on the live worker but never started, then retracted: the request comes back while it is
+                    # still registered on the worker (Worker.place_task refuses it on the copy: ValueError)
+                    st["start"] = False
+                    st["unschedule"] = [t["tid"] for t in h["tasks"] if ctx.rng.random() < 0.7]
         elif mode == "tight":
             # deadlines around now + runtime of some strategy (admission / expiry / availability boundaries)
             rel = {}
